@@ -141,14 +141,40 @@ def run(ctx):
                              "sig": "dechang:" + ln.split()[1]})
             elif int(pc["len"]) > int(ln.split()[4]):
                 viol.append({"property": PID, "kind": "decode-past-declared-length", "case": ln[:20000], "observed": c[:200], "sig": "past"})
-        cov = {"evaluations": len(lines) + len(dl), "distinct_nontrivial": nontriv,
+        # ---- heap while DECODING member after member: the decoder state (up to 2 MiB) must be released before the next
+        #      member's is allocated, for plain members and for members of Mac archives (pass-through + inner decoder)
+        import test_rdr as T
+        rdrv = cb.compile("drv_rdr_mem", [os.path.join(common.CDIR, "drv_rdr.c")] + cb.lib_sources() + common.alloc_sources(),
+                          extra=["-I" + common.CDIR, "-DLHASA_VERIF"], sanitize=True, libs=common.WRAP)
+        pool = T.Pool(cb, [rdrv], rnd)
+        hl = []
+        big = [m for m in ("-lhx-", "-lh7-", "-lh6-", "-lh5-", "-pm2-", "-lh1-") if pool.by.get(m)]
+        for m in big:
+            for os_ in (T.U, T.MAC):
+                for nmem in ((6, 12) if ctx.quick else (6, 12, 40)):
+                    ms = [T.file_member(rnd, pool.cut(pool.by[m][i % len(pool.by[m])], 40), b"m%d" % i, rnd.choice([1, 2, 3]), os_, None, None, T.T_A)
+                          for i in range(nmem)]
+                    arc = T.archive(ms)
+                    for op in ("c", "r5", "r100000", "x"):
+                        hl.append((T.case(rnd.choice(T.KINDS), "eod", arc, ["n", op] * nmem + ["n"]), len(arc)))
+        ho = common.run_lines_parallel([rdrv], [l for l, _ in hl])
+        for (l, alen), c in zip(hl, ho):
+            dist["decode-many-members"] += 1
+            am = ALLOC.search(c)
+            if "CHILD-FAILED" in c or not am:
+                continue
+            peak = int(am.group(4))
+            if peak > 8 * 2 ** 20 + 2 * alen:
+                viol.append({"property": PID, "kind": "heap-bound-exceeded", "case": l[:100000], "peak": peak, "input_len": alen,
+                             "what": "decoding member after member", "sig": "heap:members"})
+        cov = {"evaluations": len(lines) + len(dl) + len(hl), "distinct_nontrivial": nontriv,
                "rule": "every truncation offset of small repository and generated archives x stream kinds, plus archives with extreme "
                        "length fields (level-3 length 2^32-1 / 1 MiB+1, level-1 chains of 300 extended headers cut short, a 65535-byte "
                        "extended header with 10 bytes of input, 4 GiB members with 3 bytes of data); per case: the driver returns "
                        "(watchdog), requests <= len + 16*(members+2), peak heap <= 8 MiB + 2*len, nothing live after free, and the "
                        "line (incl. request counts for callback streams) equals the model's; decoders: -pm1- with empty input for all "
                        "32 start headers, a pm2 stream that needs no input, halves of real members with a 4 GiB declared length, "
-                       "constant input, and for every method short prefixes of real streams / hand-made table headers followed by runs of 0xFF, 0x00, 0xAA bytes and then the end of input (the input ends inside unary runs and escape codes): every decode returns with at most the declared length. non-trivial = case yielding a member",
+                       "constant input, and for every method short prefixes of real streams / hand-made table headers followed by runs of 0xFF, 0x00, 0xAA bytes and then the end of input (the input ends inside unary runs and escape codes): every decode returns with at most the declared length; archives of 6-40 members of the methods with the largest decoder states, as plain and as Mac-archive members, checked / read / extracted one after the other through the reader: peak heap <= 8 MiB + 2*len. non-trivial = case yielding a member",
                "distribution": dict(dist), "samples": [lines[0][:120], lines[-1][:160], dl[0][:80]]}
         return {"violations": viol[:10], "mismatches": mism[:10], "coverage": cov,
                 "search_note": "direct oracles: watchdog, request and heap accounting of the driver"}
